@@ -1299,10 +1299,14 @@ class Mesh:
                 lambda x: np.linalg.norm(x - np.array(list(nodes))[:, None],
                                          axis=0) < 1e-12
             )
+        if isinstance(nodes, (int, np.integer)):
+            return np.array([nodes])
         if isinstance(nodes, ndarray):
             # assumed an array of nodes
             return nodes
         elif isinstance(nodes, (list, set)):
+            if len(nodes) == 0:
+                return np.array([], dtype=np.int32)
             # Recurse over the list, building an array of all matching elements
             return np.unique(
                 np.concatenate(
@@ -1323,7 +1327,7 @@ class Mesh:
             behavior based on the type of this parameter.
 
         """
-        if isinstance(facets, int):
+        if isinstance(facets, (int, np.integer)):
             # Make  normalize_facets([1,2,3]) have the same behavior as
             # normalize_facets(np.array([1,2,3]))
             return np.array([facets])
@@ -1334,6 +1338,8 @@ class Mesh:
             # Default behavior.
             return self.boundary_facets()
         elif isinstance(facets, (tuple, list, set)):
+            if len(facets) == 0:
+                return np.array([], dtype=np.int32)
             # Recurse over the list, building an array of all matching facets
             return np.unique(
                 np.concatenate(
@@ -1365,7 +1371,7 @@ class Mesh:
         """
         if isinstance(elements, bool) and elements:
             return np.arange(self.nelements, dtype=np.int32)
-        if isinstance(elements, int):
+        if isinstance(elements, (int, np.integer)):
             # Make  normalize_elements([1,2,3]) have the same behavior as
             # normalize_elements(np.array([1,2,3]))
             return np.array([elements])
@@ -1377,6 +1383,8 @@ class Mesh:
             # an boolean array with True for elements that should be included.
             return self.elements_satisfying(elements)
         elif isinstance(elements, (tuple, list, set)):
+            if len(elements) == 0:
+                return np.array([], dtype=np.int32)
             # Recurse over the list, building an array of all matching elements
             return np.unique(
                 np.concatenate(
